@@ -44,8 +44,9 @@ type kase struct {
 }
 
 type opRes struct {
-	St string      `json:"st"`
-	V  interface{} `json:"v"`
+	St   string      `json:"st"`
+	V    interface{} `json:"v"`
+	Conn string      `json:"conn,omitempty"` // the sender's connection a successful write went through
 }
 
 type result struct {
@@ -242,7 +243,7 @@ func runCase(k kase) (out result) {
 			}
 		}
 		switch name {
-		case "fill": // sections of one large value each, until something aborts: [["fill", s, first, count, padKB]]
+		case "fill", "burst": // sections of one value each, back to back, until something aborts: [["fill", s, first, count, padKB]]
 			s := senders[int(op[1].(float64))]
 			first, count, pad := int(op[2].(float64)), int(op[3].(float64)), int(op[4].(float64))
 			var log [][]interface{}
@@ -272,10 +273,10 @@ func runCase(k kase) (out result) {
 					}
 					if ch := s.top.Commit(iface); !waitCh(ch, time.Duration(4*k.WriteMs)*time.Millisecond+50*time.Millisecond) {
 						s.commitCh = ch
-						log = append(log, []interface{}{i, "pending"})
+						log = append(log, []interface{}{i, "pending", resources.VerifC06SenderConn(leaf)})
 						break
 					}
-					log = append(log, []interface{}{i, "ok"})
+					log = append(log, []interface{}{i, "ok", resources.VerifC06SenderConn(leaf)})
 				}
 				return opRes{St: "ok", V: log}
 			})
@@ -298,7 +299,7 @@ func runCase(k kase) (out result) {
 				err = leaf.WriteValue(iface, mkMsg(n, pad))
 				if err == nil {
 					s.state = "written"
-					return opRes{St: "ok"}
+					return opRes{St: "ok", Conn: resources.VerifC06SenderConn(leaf)}
 				}
 				if isAbort(err) {
 					s.abortNow(iface)
